@@ -45,7 +45,7 @@ Qed.
 Lemma in_socket_neutral e : with_file e = true -> neutral (fst (in_socket e)).
 Proof.
   intros Hf. unfold in_socket. destruct (hres e).
-  - unfold with_block. rewrite Hf. cbn [fst]. apply neutral_with.
+  - unfold with_block_x, with_block. rewrite Hf. cbn [fst]. apply neutral_with.
     destruct (tsize_raises e); [apply neutral_nil | apply process_request_neutral].
   - apply seqc_neutral; [apply neutral_plain; reflexivity | apply send_error_neutral].
   - apply seqc_neutral; [apply neutral_plain; reflexivity | apply send_error_neutral].
@@ -74,6 +74,6 @@ Theorem transfer_opens e :
     (if sock_ok e then match hres e with HFile => 1 | _ => 0 end else 0).
 Proof.
   unfold run_transfer. destruct (sock_ok e); [|split; reflexivity].
-  destruct e as [so hr ts xe se ws wf]; cbn.
-  destruct hr, ts, xe, se, ws, wf; split; reflexivity.
+  destruct e as [so hr ts xe se cf ws wf]; cbn.
+  destruct hr, ts, xe, se, cf, ws, wf; split; reflexivity.
 Qed.
